@@ -622,7 +622,7 @@ fn large_strategy() -> impl Strategy<Value = LargeCase> {
 }
 
 pub fn run_all(ctx: &mut Ctx, replay: Option<&Path>) {
-    ctx.rule("case = (operator, mu, populations below, parents, offspring, seed, via Component::execute or Replacement::replace) over tagged individuals with ties, duplicates by value, unevaluated and +inf objectives, objective values 1-2 representable steps apart and values of magnitude 1e-17; the component also executed inside 1-3 nested scopes while the population stack lives outside them, after earlier calls of the same operator on other populations in the same state (incl. a directed family: second MuPlusLambda call on survivors that got worse in place), and with a best-so-far individual / counters present in the state; oracle: stack height -1 and populations below untouched, result is a sub-multiset of parents (+) offspring, content per operator (Merge/Generational/DiscardOffspring exact, MuPlusLambda = min(mu,total) individuals whose objective multiset is the mu smallest, RandomReplacement size (and, in a separate frequency check over many seeds, every individual surviving with frequency mu/total within a 6-sigma band), KeepBetterAtIndex index-wise strictly better with parent on ties, Err on unequal sizes); non-trivial = both populations non-empty with mu < total and a parent/offspring tie at the cut, or duplicates by value; distinct by case");
+    ctx.rule("case = (operator, mu, populations below, parents, offspring, seed, via Component::execute or Replacement::replace) over tagged individuals with ties, duplicates by value, unevaluated and +inf objectives, objective values 1-2 representable steps apart and values of magnitude 1e-17; the component also executed inside 1-3 nested scopes while the population stack lives outside them, after earlier calls of the same operator on other populations in the same state (incl. a directed family: second MuPlusLambda call on survivors that got worse in place), and with a best-so-far individual / counters present in the state; oracle: stack height -1 and populations below untouched, result is a sub-multiset of parents (+) offspring, content per operator (Merge/Generational/DiscardOffspring exact, MuPlusLambda = min(mu,total) individuals whose objective multiset is the mu smallest, RandomReplacement size (and, in a separate frequency check over many seeds, every individual surviving with frequency mu/total within a 6-sigma band), KeepBetterAtIndex index-wise strictly better with parent on ties, Err on unequal sizes); non-trivial = both populations non-empty with mu < total and a parent/offspring tie at the cut, or duplicates by value. large-populations: compact cases (operator, sizes 300-1600 / 4100-5600 / 4096-4200 + 0-2, mu in {total, total + 1, u32::MAX, total - 1, total / 2, 1, 2..total/100}, seed) expanded into tagged populations with hashed objective values in -3..=3 and decided by the same oracle; non-trivial = mu >= total or 2 <= mu < total / 100; distinct by case");
     ctx.assume("MuPlusLambda and KeepBetterAtIndex get evaluated individuals only (every caller evaluates first)");
     let k = ReplCheck;
     if let Some(p) = replay {
